@@ -13,7 +13,7 @@ abstract interpreter of tools/props/t_C07.py; re-check props/P_C07.v; then on th
     torch.rand / normal / randperm / randint draws against what the implementation returned
     (float64, plus in-kernel interval goals for a sample);
   * the table's boolean facts compared with the observations inside Coq (step_cases).
-DESIGN.md section 7, C07; findings F1 and F8 are recorded in known_findings.d/C07.json."""
+DESIGN.md section 7, C07; findings F1, F8, F12 and the 0/0 case (all fixed in /repo) are in known_findings.d/C07.json."""
 import json
 import math
 import os
@@ -406,9 +406,7 @@ def entry_cfg(e, r):
     sz = [r.choice([2, 3, 5, 8]) for _ in range(d)]
     lo, hi = [], []
     for _ in range(d):
-        # exp-spaced + noisy: non-negative bounds only (negative nodes give a negative std: recorded finding F12,
-        # exercised by the oracle; torch.normal's std >= 0 requirement is not part of the formula model)
-        a, b = gen_bounds(r, positive=m.startswith('log-spaced'), nonneg=cls == 'GSph' or (m == 'exp-spaced' and e['noisy']))
+        a, b = gen_bounds(r, positive=m.startswith('log-spaced'), nonneg=cls == 'GSph')
         lo.append(a); hi.append(b)
     return {'cls': cls, 'method': m, 'noisy': e['noisy'], 'sizes': sz, 'lo': lo, 'hi': hi}
 
@@ -472,7 +470,7 @@ def validate_entry(ck, torch, G, e, r, cases, goals, n_goals):
     for k, (t, info) in enumerate(zip(tens, e['tensors'])):
         ax = info['par_axis'] if e['cls'] != 'GSph' else 0
         n_ax = sizes[ax] if e['cls'] != 'GSph' else sizes[0]
-        penv = {'a': cfg['lo'][ax], 'b': cfg['hi'][ax], 'n': float(n_ax), 'pi': math.pi}
+        penv = {'a': cfg['lo'][ax], 'b': cfg['hi'][ax], 'n': float(n_ax), 'pi': math.pi, 'tiny': sys.float_info.min}
         vals = t.detach().tolist()
         perm = calls[info['perm_pos'][0]][info['perm_pos'][1]][1] if info['perm_pos'] else None
         probe = sorted(set([0, total - 1] + [r.randrange(total) for _ in range(4)]))
@@ -485,10 +483,17 @@ def validate_entry(ck, torch, G, e, r, cases, goals, n_goals):
                 seq = c[1]
                 venv[leaf] = float(seq[f] if len(seq) == total and (info['mesh_pos'] is None or leaf.startswith('z')) and not (len(seq) == n_ax and leaf[0] == 'u') else seq[src])
             try:
+                for dd in info.get('defs', []):       # leaf = torch.clamp(arg, min=lo) = max(arg, lo)
+                    venv[dd['leaf']] = max(ir.feval(dd['arg'], venv, penv, {}), ir.feval(dd['lo'], venv, penv, {}))
                 if info['wrap'] == 'none':
                     mv = ir.feval(info['term'], venv, penv, {})
                 elif info['wrap'] == 'acos':
                     z = ir.feval(info['term'], venv, penv, {})
+                    mv = math.acos(z) if -1 <= z <= 1 else float('nan')
+                elif info['wrap'] == 'acos_clamp':
+                    z = ir.feval(info['term'], venv, penv, {})
+                    lo_c, hi_c = ir.feval(info['aux'][0], {}, {}, {}), ir.feval(info['aux'][1], {}, {}, {})
+                    z = min(max(z, lo_c), hi_c)           # torch.clamp
                     mv = math.acos(z) if -1 <= z <= 1 else float('nan')
                 else:
                     venv['atan'] = math.atan2(ir.feval(info['aux'][0], venv, penv, {}), ir.feval(info['aux'][1], venv, penv, {}))
@@ -518,7 +523,8 @@ def check_table_vs_acceptance(ck, G, table):
 
 
 # ----------------------------------------------------------------------------------------------
-# F8: theta is NaN when two of the three draws vanish (scripted torch.rand)
+# scripted torch.rand probes of the spherical generator: two draws 0 (F8, fixed by 75057c3: must
+# stay fixed) and all three draws 0 (0/0, fixed by f2992d2: must stay fixed)
 
 def probe_F8(ck, torch, G):
     import random
@@ -532,6 +538,16 @@ def probe_F8(ck, torch, G):
     if bool(torch.isnan(th).any()):
         ck.fail('GeneratorSpherical/theta-nan/a=b=0', 'GeneratorSpherical: theta is NaN when two of the three uniform draws are 0 (acos argument sqrt(c/(a+b+c)) + 1e-6 > 1)',
                 inp, expected='theta in [0, pi]', actual=th.detach().tolist())
+    inp0 = {'kind': 'F8', 'size': 4, 'r_min': 0.5, 'r_max': 2.0, 'forced_draws': 'sample 1: a = 0, b = 0, c = 0'}
+    with RNG(torch, 'script', r=random.Random(7), force={0: {1: 0.0}, 1: {1: 0.0}, 2: {1: 0.0}}):
+        g = G.GeneratorSpherical(4, 0.5, 2.0)
+        with warnings.catch_warnings():
+            warnings.simplefilter('ignore')
+            rr, th, ph = g.get_examples()
+    ck.add_case(('F8-all-zero',))
+    if bool(torch.isnan(th).any()) or bool(torch.isnan(ph).any()):
+        ck.fail('GeneratorSpherical/nan/a=b=c=0', 'GeneratorSpherical: theta and phi are NaN when all three uniform draws of a sample are exactly 0 (0/0 in a/denom)',
+                inp0, expected='theta in [0, pi], phi in [0, 2 pi)', actual={'theta': th.detach().tolist(), 'phi': ph.detach().tolist()})
 
 
 # ----------------------------------------------------------------------------------------------
@@ -616,7 +632,8 @@ def main():
         assumptions=['a < b per axis; positive bounds for log spacing; 0 <= r_min <= r_max for the sphere; n >= 2 where the formula uses n - 1',
                      'GeneratorND is tabulated at N = 2 with the same method on both axes (the oracle also runs N = 1, 3 and mixed methods)',
                      'GeneratorND "uniform" and the 2-D/3-D Latin hypercube are drawn once by the constructor: the property does not classify them (AnyOf)',
-                     'open findings F1 (Generator2D chebyshev2-noisy) and F8 (spherical theta NaN) are excluded by hypothesis in the _partial theorems'])
+                     'spherical: denom is the leaf v_denom = Rmax (a+b+c) tiny with tiny = torch.finfo(dtype).tiny > 0 (generated definition e_defs); '
+                     'torch.normal requires std >= 0: not part of the formula model, exercised by the oracle (F12, fixed)'])
 
 
 if __name__ == '__main__':
